@@ -114,7 +114,11 @@ func VerifTextIndex() {
 	}
 	w := float32(1)
 	var weight *float32
-	if nondetBool() {
+	if vparam("NEGW", 0) == 1 {
+		// concrete negative weight: the cut must still keep the most relevant documents
+		w = -1
+		weight = &w
+	} else if nondetBool() {
 		w = nondetFloat32()
 		vassume(w == w)
 		weight = &w
